@@ -237,6 +237,13 @@ def run_herald(case):
         back = call("remove_heralds_from_state", remove_heralds_from_state, fs, list(keys))
         if list(back) != state:
             raise Violation(f"remove(add(s)) = {list(back)} != {state} for heralds {heralds}", key="herald-roundtrip")
+        if not isinstance(back, list) or back != state:
+            raise Violation(f"remove_heralds_from_state returned {back!r} ({type(back).__name__}), not the list of "
+                            f"occupations {state} (heralds {heralds})", key="herald-roundtrip")
+        back.append(9)                 # the result is the caller's: using it must not reach the argument
+        if list(fs) != list(full):
+            raise Violation(f"remove_heralds_from_state({list(full)}, {keys}) returned an alias of its argument",
+                            key="herald-alias")
     if (case["as_state"] and arg.s != state) or (not case["as_state"] and arg != state):
         raise Violation("herald helpers modified their argument", key="herald-argument-modified")
     if not heralds:
